@@ -92,6 +92,12 @@ var AllScenarios = func() []Scenario {
 			out = append(out, Scenario{Bump: bump, P: x.p, Q1: x.q1, Q2: x.q2, L: 10})
 		}
 	}
+	// the other minimal quorum (Q1=4), honest leader, appended last
+	for _, bump := range []bool{false, true} {
+		for _, e := range []int{0, 2} {
+			out = append(out, Scenario{Bump: bump, E: e, Q1: 4})
+		}
+	}
 	return out
 }()
 
@@ -213,7 +219,7 @@ func OpsFor(in Info, reduced bool) []int {
 			pq := [3]int{s.P, s.Q1, s.Q2}
 			switch pq {
 			case [3]int{0, 0, 0}, [3]int{1, 0, 0}, [3]int{0, 1, 0}, [3]int{0, 0, 1}:
-			case [3]int{0, 2, 0}:
+			case [3]int{0, 2, 0}, [3]int{0, 4, 0}:
 				// PRECOMMIT reaching a minimal quorum only: some honest nodes lock, another keeps an older lock (or none).
 				// Liveness needs it (sixth-round seed C15: a holder of an older-root-height lock that never unlocks)
 				if !ReducedMinQuorum || s.L != 0 {
